@@ -146,7 +146,7 @@ def facts(src):
     out = []
     gm = src.func("jsonlib", "JsonHandler.get_methods")
     sp = _stdlib_loads_plain(gm) if gm is not None else None
-    out.append(Fact("stdlibLoadsPlain", "Bool", None if sp is None else lean_bool(sp), ["C05", "C02"],
+    out.append(Fact("stdlibLoadsPlain", "Bool", None if sp is None else lean_bool(sp), ["C05", "C02", "C04"],
                     "jsonlib.JsonHandler.get_methods: the loader is json.loads itself (or a wrapper that passes its one argument "
                     "and no keyword): the parser runs with its default, strict settings", json_value=sp))
     ld = src.func("jsonrpc", "loads")
@@ -156,7 +156,7 @@ def facts(src):
     out.append(Fact("emptyBodyRejectedInParseTry", "Bool", None if eb is None else lean_bool(eb), ["C05", "C02"],
                     "_marshaled_dispatch: inside the try around loads (except Exception -> Fault -32700, no re-raise), before loads "
                     "is called, `if not data: raise ...` — the empty body takes the parse-failure handler", json_value=eb))
-    out.append(Fact("loadsParsesWholeBody", "Bool", None if sh is None else lean_bool(sh[1]), ["C05", "C02"],
+    out.append(Fact("loadsParsesWholeBody", "Bool", None if sh is None else lean_bool(sh[1]), ["C05", "C02", "C04"],
                     "jsonrpc.loads: jloads is called once, on the parameter `data` itself, which is never rebound (no strip / "
                     "slice / decode in front of the parser)", json_value=None if sh is None else sh[1]))
     return out
